@@ -73,9 +73,10 @@ func ruleC13(c *Ctx) {
 	c.RequireGuard(G, sca, "block not empty", readsField("protocol/bc/types.Block", "Transactions"), callsKey("builtin:len"))
 	c.RequireGuard(G, sca, "coinbase outputs are plain outputs", callsKey("(protocol/bc/types.TypedOutput).OutputType"))
 	c.RequireGuard(G, sca, "coinbase outputs are BTM", readsField("", "AssetId"), readsGlobal("BTMAssetID"))
-	nonEpoch := c.ScopeIf(cca, "non-epoch-start block", 0, readsField("", "BlocksOfEpoch"), readsField(tBH, "Height"))
+	epochResidue := "(field:" + tBH + ".Height%field:consensus.CasperConfig.BlocksOfEpoch)"
+	nonEpoch := c.ScopeWhen(cca, "non-epoch-start block", epochResidue+" != 1")
 	c.RequireGuard(G, nonEpoch, "single zero-amount output", readsField("protocol/bc.AssetAmount", "Amount"))
-	epoch := c.ScopeIf(cca, "epoch-start block", 1, readsField("", "BlocksOfEpoch"), readsField(tBH, "Height"))
+	epoch := c.ScopeWhen(cca, "epoch-start block", epochResidue+" == 1")
 	c.RequireCall(R, epoch, true, pVal+".checkoutRewardCoinbase")
 
 	crc := c.ScopeFunc(c.Func(pVal, "checkoutRewardCoinbase"))
@@ -84,12 +85,12 @@ func ruleC13(c *Ctx) {
 
 	// --- transaction
 	vt := c.ScopeFunc(c.Func(pVal, "ValidateTx"))
-	c.RequireGuard(G, c.ScopeIf(vt.F, "block version 1", 0, readsField("protocol/bc.BlockHeader", "Version")), "tx version", readsField("protocol/bc.TxHeader", "Version"))
+	c.RequireGuard(G, c.ScopeWhen(vt.F, "block version 1", "field:protocol/bc.BlockHeader.Version == 1"), "tx version", readsField("protocol/bc.TxHeader", "Version"))
 	c.RequireGuard(G, vt, "serialized size", readsField("protocol/bc.TxHeader", "SerializedSize"))
 	c.RequireCall(R, vt, true, pVal+".checkTimeRange")
 	c.RequireCall(R, vt, true, pVal+".checkDoubleSpend")
 	c.RequireCall(R, vt, true, pVal+".checkValid")
-	ctr := c.ScopeIf(c.Func(pVal, "checkTimeRange"), "TimeRange != 0", 1, readsField("protocol/bc.TxHeader", "TimeRange"))
+	ctr := c.ScopeWhen(c.Func(pVal, "checkTimeRange"), "TimeRange != 0", "field:protocol/bc.TxHeader.TimeRange != 0")
 	c.RequireGuard(G, ctr, "time range ≥ height", readsField("protocol/bc.TxHeader", "TimeRange"), readsField("protocol/bc.BlockHeader", "Height"))
 	cds := c.ScopeFunc(c.Func(pVal, "checkDoubleSpend"))
 	c.RequireGuard(G, cds, "duplicate input id", readsField("protocol/bc.Tx", "InputIDs"), func(v ssa.Value) bool { l, ok := v.(*ssa.Lookup); return ok && l.CommaOk })
@@ -105,9 +106,9 @@ func ruleC13(c *Ctx) {
 	isEntriesLookup := func(v ssa.Value) bool { l, ok := v.(*ssa.Lookup); return ok && l.CommaOk }
 	c.RequireGuard(G, ssu, "output exists", isEntriesLookup, readsField("protocol/state.UtxoViewpoint", "Entries"))
 	c.RequireGuard(G, ssu, "output unspent", readsField("database/storage.UtxoEntry", "Spent"))
-	cbCase := c.ScopeIf(asu, "case CoinbaseUTXOType", 0, readsField("database/storage.UtxoEntry", "Type"), constEq(c, "database/storage", "CoinbaseUTXOType"))
+	cbCase := c.ScopeWhen(asu, "case CoinbaseUTXOType", "field:database/storage.UtxoEntry.Type == "+c.constVal("database/storage", "CoinbaseUTXOType"))
 	c.RequireGuard(G, cbCase, "coinbase maturity", readsField("database/storage.UtxoEntry", "BlockHeight"), readsField("protocol/bc.BlockHeader", "Height"))
-	vtCase := c.ScopeIf(asu, "case VoteUTXOType", 0, readsField("database/storage.UtxoEntry", "Type"), constEq(c, "database/storage", "VoteUTXOType"))
+	vtCase := c.ScopeWhen(asu, "case VoteUTXOType", "field:database/storage.UtxoEntry.Type == "+c.constVal("database/storage", "VoteUTXOType"))
 	c.RequireGuard(G, vtCase, "vote lock", readsField("database/storage.UtxoEntry", "BlockHeight"), readsField("protocol/bc.BlockHeader", "Height"), callsKey("consensus.VotePendingBlockNums"))
 	c.RequireErrProp("errprop", c.Func(pState, "(*UtxoViewpoint).ApplyTransaction"), false, "(*protocol/state.UtxoViewpoint).applySpendUtxo")
 	c.RequireCall(R, c.ScopeFunc(c.Func(pState, "(*UtxoViewpoint).ApplyBlock")), true, "(*protocol/state.UtxoViewpoint).ApplyTransaction")
